@@ -62,13 +62,14 @@ static void rand_b(void *p, size_t n) { do_rand(1, p, n); }
 static uint64_t time_a(void) { E.n_time++; E.last_table = 0; logc('T'); if (E.clock_seq_n > 0) return E.clock_seq[E.clock_seq_i++ % E.clock_seq_n]; return E.clock[0]; }
 static uint64_t time_b(void) { E.n_time++; E.last_table = 1; logc('T'); return E.clock[1]; }
 
+int E_kdf_table;   /* which table's KDF is executing */
 void (*E_kdf_hook)(uint8_t *key, size_t keylen);   /* called after the key is written (C04 page protection) */
 
 static void dep_kdf(const uint8_t *pw, size_t pwlen, const uint8_t *salt, size_t saltlen,
                     uint64_t iters, uint8_t *key, size_t keylen) {
     E.n_kdf++; logc('K');
     struct kdfcall *k = &E.kdf;
-    k->pwptr = pw; k->pwlen = pwlen; k->saltlen = saltlen; k->iters = iters; k->key = key; k->keylen = keylen;
+    k->table = E_kdf_table; k->pwptr = pw; k->pwlen = pwlen; k->saltlen = saltlen; k->iters = iters; k->key = key; k->keylen = keylen;
     memset(k->pw, 0, sizeof k->pw); memset(k->salt, 0, sizeof k->salt);
     memcpy(k->pw, pw, pwlen < sizeof k->pw ? pwlen : sizeof k->pw);
     memcpy(k->salt, salt, saltlen < sizeof k->salt ? saltlen : sizeof k->salt);
@@ -76,7 +77,6 @@ static void dep_kdf(const uint8_t *pw, size_t pwlen, const uint8_t *salt, size_t
     else for (size_t i = 0; i < keylen; i++) key[i] = (uint8_t)(E.keyfill + i);
     if (E_kdf_hook) E_kdf_hook(key, keylen);
 }
-int E_kdf_table;   /* which table's KDF made the last call */
 static void dep_kdf_b(const uint8_t *pw, size_t pwlen, const uint8_t *salt, size_t saltlen, uint64_t iters, uint8_t *key, size_t keylen) {
     E_kdf_table = 1; dep_kdf(pw, pwlen, salt, saltlen, iters, key, keylen); E_kdf_table = 0;
     if (saltlen == 16 && !E_kdf_hook) for (size_t i = 0; i < keylen; i++) key[i] ^= 0x5A;     /* table B's KDF is a different function */
